@@ -424,6 +424,16 @@ pub fn run_check(prop: &str, tier: &str) -> i32 {
                     "explanation": SCHED_EXPLANATION,
                 }));
             }
+            // restart dimension (clean and torn images re-opened under small caches)
+            let rs = crate::imagex::run_c15_restart(&rep, tier == "thorough");
+            if let Some(o) = cov.as_object_mut() {
+                let n = rs["restart_cases"].as_u64().unwrap_or(0);
+                for k in ["states", "transitions", "traces_validated_against_impl"] {
+                    let cur = o.get(k).and_then(|v| v.as_u64()).unwrap_or(0);
+                    o.insert(k.to_string(), json!(cur + n));
+                }
+                o.insert("restart_dimension".into(), rs);
+            }
             let mut assumptions = seq_assumptions();
             assumptions.extend(sched_assumptions());
             let code = rep.finish("model_checking", cov, assumptions);
@@ -561,7 +571,7 @@ pub fn replay(path: &str) -> i32 {
         "seqx-probe" => crate::probes::replay(&prop, r),
         "c14" => crate::c14::replay(r),
         "readers" => crate::readers::replay(r),
-        e @ ("imagex-tail" | "imagex-mutate" | "imagex-missing" | "codecx") => {
+        e @ ("imagex-tail" | "imagex-mutate" | "imagex-missing" | "imagex-c15" | "codecx") => {
             let rep = Reporter::new(&prop, "replay");
             let ran = if e == "codecx" { crate::codecx::replay(&rep, r) } else { crate::imagex::replay(&rep, r) };
             if !ran {
@@ -932,6 +942,8 @@ pub fn sched_specs(prop: &str, tier: &str) -> Vec<HistSpec> {
                 // a closed, synced, evicted chunk holding two 40 000-byte entries: the
                 // second one straddles every 64 KiB block boundary a reader might use
                 vec![Sym::Ahuge, Sym::Ahuge, Sym::A, Sym::F, Sym::W, Sym::I, Sym::E, Sym::R],
+                // the same with records above 64 KiB (70 000-byte entries)
+                vec![Sym::Agiant, Sym::Agiant, Sym::A, Sym::F, Sym::W, Sym::I, Sym::E, Sym::R],
             ];
             if thorough {
                 let alpha2 = [Sym::A, Sym::F, Sym::W, Sym::Ks, Sym::Ki, Sym::E, Sym::T, Sym::Pfirst];
@@ -1110,13 +1122,19 @@ pub fn c14_specs(tier: &str) -> Vec<crate::c14::C14Spec> {
                     if plen >= 2 && !thorough && (c.max_records == Some(2) || tail >= 1) {
                         continue;
                     }
-                    out.push(crate::c14::C14Spec { prop: "C14".to_string(), phase1: syms_ops.clone(), cfg: c, max_executions: 300_000, unwind_drop: false });
+                    out.push(crate::c14::C14Spec { prop: "C14".to_string(), phase1: syms_ops.clone(), cfg: c, max_executions: 300_000, unwind_drop: false, worker_faults: false });
+                    // a worker that fails (EIO at a write, fdatasync or unlink): quick tier for
+                    // the shapes with work pending behind the last acknowledgement
+                    let pending_removal0 = prefix.iter().any(|o| matches!(o, SOp::W(crate::model::Op::Purge(_))));
+                    if thorough || (pending_removal0 && tail == 0 && plen <= 2) || (plen == 0 && tail >= 1 && c.max_records == Some(2)) {
+                        out.push(crate::c14::C14Spec { prop: "C14".to_string(), phase1: syms_ops.clone(), cfg: c, max_executions: 300_000, unwind_drop: false, worker_faults: true });
+                    }
                     // the same, dropped by unwinding: quick tier for the purge prefixes
                     // (a removal is pending behind the acknowledged flush) and the
                     // empty prefix with a rotated tail pending
                     let pending_removal = prefix.iter().any(|o| matches!(o, SOp::W(crate::model::Op::Purge(_))));
                     if thorough || (pending_removal && tail == 0) || (plen == 0 && tail == 2 && c.max_records == Some(3)) {
-                        out.push(crate::c14::C14Spec { prop: "C14".to_string(), phase1: syms_ops.clone(), cfg: c, max_executions: 300_000, unwind_drop: true });
+                        out.push(crate::c14::C14Spec { prop: "C14".to_string(), phase1: syms_ops.clone(), cfg: c, max_executions: 300_000, unwind_drop: true, worker_faults: false });
                     }
                 }
             }
@@ -1135,14 +1153,19 @@ pub fn reader_specs(tier: &str) -> Vec<crate::readers::ReaderSpec> {
             vec![Sym::A, Sym::A, Sym::Pfirst, Sym::F],
             vec![Sym::A, Sym::Aup, Sym::T, Sym::Alow, Sym::F],
             vec![Sym::A, Sym::A, Sym::F, Sym::A, Sym::A, Sym::F],
+            vec![Sym::Ahuge, Sym::Ahuge, Sym::F],
+            vec![Sym::Agiant, Sym::Agiant, Sym::F],
         ]
     } else {
-        vec![vec![Sym::A, Sym::A, Sym::F]]
+        // (second shape: two entries above 64 KiB in one closed chunk, read from disk
+        // by both readers at once)
+        vec![vec![Sym::A, Sym::A, Sym::F], vec![Sym::Agiant, Sym::Agiant, Sym::F]]
     };
     let mut out = vec![];
-    for sh in shapes {
+    let n_shapes = shapes.len();
+    for (si, sh) in shapes.into_iter().enumerate() {
         for (items, cap) in [(Some(0usize), None), (Some(1), None), (None, Some(5usize))] {
-            if !thorough && items == Some(1) {
+            if !thorough && (items == Some(1) || (si + 1 == n_shapes && cap.is_some())) {
                 continue;
             }
             out.push(crate::readers::ReaderSpec {
@@ -1274,10 +1297,16 @@ fn c14_shard(tier: &str, shard: usize, of: usize) -> i32 {
             machinery = Some(m);
             break;
         }
-        // deviation at the join: the wait for the worker may give up (timer lands first)
-        if let Err(schedx::Machinery(m)) = crate::c14::impatient_probe(s, &mut vios, &mut stats) {
-            machinery = Some(m);
+        if stats.tainted {
+            skipped += specs.iter().enumerate().filter(|(j, _)| j % of == shard && *j > i).count() as u64;
             break;
+        }
+        // deviation at the join: the wait for the worker may give up (timer lands first)
+        if !s.worker_faults {
+            if let Err(schedx::Machinery(m)) = crate::c14::impatient_probe(s, &mut vios, &mut stats) {
+                machinery = Some(m);
+                break;
+            }
         }
         if std::env::var("VX_SHARD_VERBOSE").is_ok() {
             eprintln!("ITEM {} execs={} cfg={} phase1=[{}]", i, stats.executions - before, s.cfg.short(), schedx::shist_short(&s.phase1));
